@@ -10,7 +10,7 @@ def main(argv=None):
     a = ap.parse_args(argv)
     if a.what == 'replay':
         from . import replay
-        return replay.main(a.arg)
+        return 1 if replay.main(a.arg) == 10 else 0
     pid = a.what.upper()
     if a.tier:
         os.environ['VERIF_TIER'] = a.tier
